@@ -351,6 +351,8 @@ pub struct BlockInfo {
     pub hang_s: u32,
     /// re-arm the watchdog alarm every this many cases (1 for cases that do file I/O)
     pub alarm_every: u64,
+    /// tier the block was built for (offset lists differ between tiers)
+    pub tier: &'static str,
 }
 pub trait Block {
     fn info(&self) -> &BlockInfo;
@@ -529,7 +531,7 @@ fn run_group(blocks: &[Box<dyn Block>], sels: &[Sel], from: usize, mut skips: BT
     let mut start_case = 0u64;
     let mut confirmed: BTreeSet<(usize, String)> = BTreeSet::new();
     while start < blocks.len() {
-        rep.begin_case(&json!({"mode": "group", "block": blocks[start].info().key, "from": start, "skips": skips.iter().map(|(k, v)| (k.to_string(), v.clone())).collect::<BTreeMap<_, _>>(),
+        rep.begin_case(&json!({"mode": "group", "tier": ctx.tier.name(), "block": blocks[start].info().key, "from": start, "skips": skips.iter().map(|(k, v)| (k.to_string(), v.clone())).collect::<BTreeMap<_, _>>(),
                                "sel": sels[start].json()}).to_string());
         let dl = ctx.deadline;
         let (outs, died) = iso::run_child(&ctx.scratch, shared, |em| {
@@ -850,6 +852,8 @@ struct ABlock {
     seed: usize,
     kind: Kind,
     offs: Vec<u32>,
+    /// the insertion at the end of the seed belongs to another block of the same seed and kind
+    no_tail_insert: bool,
 }
 impl ABlock {
     fn exec(&self, bytes: &[u8], env_small: &mut GuardBuf, env_page: &mut GuardBuf, scratch: &Path, shared: &Shared, out: &mut Out, seen: &mut BTreeSet<(&'static str, u8)>, case: &dyn Fn() -> Value) {
@@ -874,13 +878,14 @@ impl Block for ABlock {
         let seed = &self.dec.seeds[self.seed];
         let mut buf = Vec::new();
         let m = mutate(&seed.bytes, self.kind, i, &self.offs, &mut buf);
-        json!({"part": "A", "block": self.info.key, "i": i, "decoder": self.dec.name, "seed": seed.name, "kind": self.info.kind,
+        json!({"part": "A", "tier": self.info.tier, "block": self.info.key, "i": i, "decoder": self.dec.name, "seed": seed.name, "kind": self.info.kind,
                "mutation": m, "seed_len": seed.bytes.len(), "input_hex": hex_clip(&buf)})
     }
     fn run(&self, i: u64, env: &mut Env, out: &mut Out, seen: &mut BTreeSet<(&'static str, u8)>) -> bool {
         let seed = &self.dec.seeds[self.seed];
         let mut buf = std::mem::take(&mut env.buf);
-        let ok = mutate(&seed.bytes, self.kind, i, &self.offs, &mut buf).is_some();
+        let tail_dup = self.no_tail_insert && matches!(self.kind, Kind::Insert | Kind::InsShift) && (i / 6) as usize >= self.offs.len();
+        let ok = !tail_dup && mutate(&seed.bytes, self.kind, i, &self.offs, &mut buf).is_some();
         if ok {
             let Env { small, page, scratch, shared, .. } = env;
             self.exec(&buf, small, page, scratch, shared, out, seen, &|| self.describe(i));
@@ -941,7 +946,7 @@ impl Block for SBlock {
     fn describe(&self, i: u64) -> Value {
         let mut buf = Vec::new();
         self.bytes(i, &mut buf);
-        json!({"part": "A", "block": self.info.key, "i": i, "decoder": self.dec.name, "kind": self.info.kind, "input_len": buf.len(), "input_hex": hex_clip(&buf)})
+        json!({"part": "A", "tier": self.info.tier, "block": self.info.key, "i": i, "decoder": self.dec.name, "kind": self.info.kind, "input_len": buf.len(), "input_hex": hex_clip(&buf)})
     }
     fn run(&self, i: u64, env: &mut Env, out: &mut Out, seen: &mut BTreeSet<(&'static str, u8)>) -> bool {
         let mut buf = std::mem::take(&mut env.buf);
@@ -2114,7 +2119,7 @@ fn part_a_blocks(ctx: &Ctx, only_key: Option<&str>) -> Vec<Box<dyn Block>> {
         let d = std::rc::Rc::new(d);
         // identity block: every seed must decode without panic (seed validity)
         for (si, seed) in d.seeds.iter().enumerate() {
-            if quick && seed.thorough_only {
+            if quick && seed.thorough_only && only_key.is_none() {
                 continue;
             }
             let kinds: &[Kind] = if d.page { &[Kind::Identity, Kind::Subst, Kind::Trunc, Kind::InsShift, Kind::DelShift, Kind::ZeroTail] } else { &[Kind::Identity, Kind::Subst, Kind::Trunc, Kind::Insert, Kind::Delete] };
@@ -2123,16 +2128,27 @@ fn part_a_blocks(ctx: &Ctx, only_key: Option<&str>) -> Vec<Box<dyn Block>> {
                 kinds.push(Kind::WalFixSum);
             }
             for k in kinds {
-                let key = format!("A/{}/{}/{}", d.name, seed.name, k.name());
-                if let Some(o) = only_key {
-                    if o != key {
-                        continue;
-                    }
-                }
                 let stride = if d.io { if seed.bytes.len() <= 2048 { 16 } else { 1024 } } else if k == Kind::Subst { 64 } else { 256 };
                 let offs = if k == Kind::Identity { vec![] } else { offsets_for(seed, quick, stride, d.io) };
-                let n = kind_count(&seed.bytes, k, &offs);
-                blocks.push(Box::new(ABlock { info: BlockInfo { key, dec: d.name.to_string(), kind: k.name().to_string(), n, hang_s: HANG_A_S, alarm_every: if d.io { 1 } else { 64 } }, dec: d.clone(), seed: si, kind: k, offs }));
+                // file-based decoders: header regions and the rest are separate blocks, so that a
+                // header field whose corruption kills the process cannot cut the exploration of the body
+                let split = d.io && !seed.dense.is_empty() && !matches!(k, Kind::Identity | Kind::WalFixSum);
+                let parts: Vec<(&str, Vec<u32>)> = if split {
+                    let in_dense = |o: u32| seed.dense.iter().any(|r| r.contains(&(o as usize)));
+                    vec![("@hdr", offs.iter().copied().filter(|o| in_dense(*o)).collect()), ("@body", offs.iter().copied().filter(|o| !in_dense(*o)).collect())]
+                } else {
+                    vec![("", offs)]
+                };
+                for (suffix, offs) in parts {
+                    let key = format!("A/{}/{}/{}{}", d.name, seed.name, k.name(), suffix);
+                    if let Some(o) = only_key {
+                        if o != key {
+                            continue;
+                        }
+                    }
+                    let n = kind_count(&seed.bytes, k, &offs);
+                    blocks.push(Box::new(ABlock { info: BlockInfo { key, dec: d.name.to_string(), kind: k.name().to_string(), n, hang_s: HANG_A_S, alarm_every: if d.io { 1 } else { 64 }, tier: ctx.tier.name() }, dec: d.clone(), seed: si, kind: k, offs, no_tail_insert: suffix == "@hdr" }));
+                }
             }
         }
         if d.strings {
@@ -2143,7 +2159,7 @@ fn part_a_blocks(ctx: &Ctx, only_key: Option<&str>) -> Vec<Box<dyn Block>> {
                         continue;
                     }
                 }
-                blocks.push(Box::new(SBlock { info: BlockInfo { key, dec: d.name.to_string(), kind: kn.to_string(), n, hang_s: HANG_A_S, alarm_every: if d.io { 1 } else { 64 } }, dec: d.clone(), repeat, pats: repeat_patterns() }));
+                blocks.push(Box::new(SBlock { info: BlockInfo { key, dec: d.name.to_string(), kind: kn.to_string(), n, hang_s: HANG_A_S, alarm_every: if d.io { 1 } else { 64 }, tier: ctx.tier.name() }, dec: d.clone(), repeat, pats: repeat_patterns() }));
             }
         }
     }
@@ -2154,12 +2170,21 @@ fn all_blocks(ctx: &Ctx, only_key: Option<&str>) -> Vec<Box<dyn Block>> {
     let mut v = Vec::new();
     let want_a = only_key.map(|k| k.starts_with("A/")).unwrap_or(true) && ctx.opt("part").map(|p| p == "A").unwrap_or(true);
     let want_b = only_key.map(|k| k.starts_with("B/")).unwrap_or(true) && ctx.opt("part").map(|p| p == "B").unwrap_or(true);
+    // order: pure decoders, whole-database part, then the file-based decoders (slowest per case)
+    let mut tail: Vec<Box<dyn Block>> = Vec::new();
     if want_a {
-        v.extend(part_a_blocks(ctx, only_key));
+        for b in part_a_blocks(ctx, only_key) {
+            if b.info().alarm_every == 1 {
+                tail.push(b);
+            } else {
+                v.push(b);
+            }
+        }
     }
     if want_b {
         v.extend(partb::blocks(ctx, only_key));
     }
+    v.extend(tail);
     v
 }
 
@@ -2236,7 +2261,7 @@ mod partb {
         let n = f.len();
         match class_of(rel) {
             "catalog" => {
-                add("subst.catalog", 0..128, n);
+                add("subst.cataloghdr", 0..128, n);
                 for i in (128..n).step_by(if quick { 8 } else { 1 }) {
                     add("subst.catalog", i..i + 1, n);
                 }
@@ -2438,7 +2463,7 @@ mod partb {
                 BCase::Subst { off, vi } => json!({"off": off, "page": off as usize / PAGE, "in_page": off as usize % PAGE, "old": orig[off as usize], "val": subst_val(orig[off as usize], vi)}),
                 BCase::Len(l) => json!({"new_len": l, "old_len": orig.len()}),
             };
-            json!({"part": "B", "block": self.info.key, "i": i, "db": self.plan.db.name, "file": rel, "kind": self.info.kind, "mutation": m})
+            json!({"part": "B", "tier": self.info.tier, "block": self.info.key, "i": i, "db": self.plan.db.name, "file": rel, "kind": self.info.kind, "mutation": m})
         }
         fn run(&self, i: u64, env: &mut Env, out: &mut Out, seen: &mut BTreeSet<(&'static str, u8)>) -> bool {
             self.exec(i, env, out, seen)
@@ -2463,7 +2488,7 @@ mod partb {
                 let n = cases.len() as u64;
                 // files root/<table>.tbd, root/<table>_<index>.idx, root/<table>_toast.tbd belong to one table
                 let owner: Option<&'static str> = if quick { rel.strip_prefix("root/").and_then(|f| plan.tables.iter().map(|t| t.0).find(|t| f.starts_with(&format!("{t}.")) || f.starts_with(&format!("{t}_")))) } else { None };
-                v.push(Box::new(BBlock { info: BlockInfo { key, dec: format!("db.{}", class_of(rel)), kind: kind.to_string(), n, hang_s: HANG_B_S, alarm_every: 1 }, plan: plan.clone(), file, cases, only_table: owner }));
+                v.push(Box::new(BBlock { info: BlockInfo { key, dec: format!("db.{}", class_of(rel)), kind: kind.to_string(), n, hang_s: HANG_B_S, alarm_every: 1, tier: ctx.tier.name() }, plan: plan.clone(), file, cases, only_table: owner }));
             };
             push(&mut v, 0, "identity", vec![BCase::Identity]);
             for fi in 0..plan.db.files.len() {
@@ -2510,7 +2535,7 @@ impl Check for C23 {
             "two or more simultaneous byte errors are outside the bound (except zeroed tails, truncations and checksum-consistent WAL header edits)",
         ];
         s.crash_is_verdict = true;
-        s.cap_quick_s = 90;
+        s.cap_quick_s = 95;
         s.cap_thorough_s = 1500;
         vec![s]
     }
@@ -2553,6 +2578,14 @@ impl Check for C23 {
 
     fn replay(&self, ctx: &Ctx, case: &Value, rep: &mut Reporter) {
         quiet_env();
+        // offsets (hence case indexes) depend on the tier the case was recorded in
+        let mut ctx2 = ctx.clone();
+        match case["tier"].as_str() {
+            Some("thorough") => ctx2.tier = vcore::Tier::Thorough,
+            Some("quick") => ctx2.tier = vcore::Tier::Quick,
+            _ => {}
+        }
+        let ctx = &ctx2;
         let shared = std::rc::Rc::new(Shared::new());
         let mut env = Env::new(&ctx.scratch, shared.clone());
         let key = case["block"].as_str().unwrap_or_else(|| vcore::machinery("C23 replay: case without block key"));
